@@ -6,6 +6,7 @@
    a parameter; [load_item] ties the knot over the fuel.  The getters are top-level definitions so that
    Proofs/DecEquivP.v and Proofs/ShapeP.v can state lemmas about each of them. *)
 From AP.Model Require Import Prelude Bytes Vocab Pred Url IriEq CollIri UrlU Nlv Text Equal Coll Dispatch Layout JsonTables JsonLeaf JsonCheck.
+From AP.Model Require XsdRead.
 Open Scope Z_scope.
 
 Definition jget (v : fjv) (k : bytes) : option fjv := fj_get false v k.
@@ -118,7 +119,7 @@ Definition num2 (a b : byte) : option Z :=
 
 (* time.Time.UnmarshalText on "YYYY-MM-DDTHH:MM:SSZ" and "...+HH:MM" / "...-HH:MM", then .UTC();
    Some None = the zero time (empty or unparsable text leaves t at zero); None = a form outside the model *)
-Definition parse_rfc3339 (s : bytes) : option (option vtime) :=
+Definition rfc3339_grammar (s : bytes) : option (option vtime) :=
   match s with
   | [] => Some None
   | y1 :: y2 :: y3 :: y4 :: d1 :: m1 :: m2 :: d2 :: a1 :: a2 :: t :: h1 :: h2 :: c1 :: n1 :: n2 :: c2 :: s1 :: s2 :: rest =>
@@ -151,6 +152,76 @@ Definition parse_rfc3339 (s : bytes) : option (option vtime) :=
       else None
   | _ => None
   end.
+
+(* time.Time.UnmarshalText on ALL byte strings (go1.23 time/format_rfc3339.go parseStrictRFC3339: the fast parser, and
+   when that refuses time.Parse(time.RFC3339, s) - the strict checks behind it are disabled, "case true" - so the texts
+   accepted are those of the layout parser of time/format.go, which is laxer than RFC 3339):
+     YYYY-MM-DDTh[h]:mm:ss[(.|,)d+](Z|(+|-)hh:mm), nothing before or behind;
+   the hour may have ONE digit (getnum not fixed), the fraction may start with a COMMA, has any number of digits of which
+   the first nine count (parseNanoseconds), "." or "," not followed by a digit is no fraction (and then no zone either);
+   month 1-12, day 1-daysIn, hour <= 23, minute and second <= 59, offset hour <= 24, offset minute <= 60.
+   None = refused (JSONGetTime then returns the zero time).  [rfc3339_grammar] above is the reader on whole-second
+   instants of the fixed width; the two agree wherever it answers (Proofs/TimeAgreeP.v rfc3339_grammar_agrees). *)
+Fixpoint take_dig (s : bytes) : bytes * bytes :=
+  match s with
+  | b :: r => if is_digit b then let '(d, t) := take_dig r in (b :: d, t) else ([], s)
+  | [] => ([], [])
+  end.
+Definition frac_nanos (ds : bytes) : Z :=
+  let d9 := firstn 9 ds in
+  match parse_nat_go d9 0 with Some n => n * 10 ^ Z.of_nat (9 - length d9) | None => 0 end.
+(* stdISO8601ColonTZ "Z07:00" followed by the end of the text: the offset in seconds *)
+Definition read_zone (s : bytes) : option Z :=
+  match s with
+  | [z] => if Byte.eqb z x5a then Some 0 else None
+  | [sg; o1; o2; oc; o3; o4] =>
+      match num2 o1 o2, num2 o3 o4 with
+      | Some oh, Some om =>
+          if Byte.eqb oc x3a && (Byte.eqb sg x2b || Byte.eqb sg x2d) && (oh <=? 24) && (om <=? 60)
+          then Some ((if Byte.eqb sg x2b then 1 else -1) * (oh * 3600 + om * 60)) else None
+      | _, _ => None
+      end
+  | _ => None
+  end.
+Definition read_rfc3339 (s : bytes) : option vtime :=
+  match s with
+  | y1 :: y2 :: y3 :: y4 :: d1 :: m1 :: m2 :: d2 :: a1 :: a2 :: t :: h1 :: rest0 =>
+      let '(h2o, rest1) := match rest0 with
+                           | h2 :: r => if is_digit h2 then (Some h2, r) else (None, rest0)
+                           | [] => (None, [])
+                           end in
+      match rest1 with
+      | c1 :: n1 :: n2 :: c2 :: s1 :: s2 :: rest2 =>
+          if Byte.eqb d1 x2d && Byte.eqb d2 x2d && Byte.eqb t x54 && Byte.eqb c1 x3a && Byte.eqb c2 x3a then
+            match num2 y1 y2, num2 y3 y4, num2 m1 m2, num2 a1 a2,
+                  (match h2o with Some h2 => num2 h1 h2 | None => digit_val h1 end), num2 n1 n2, num2 s1 s2 with
+            | Some ya, Some yb, Some mo, Some da, Some ho, Some mi, Some se =>
+                let secs := days_from_civil (ya * 100 + yb) mo da * 86400 + ho * 3600 + mi * 60 + se in
+                let valid := (1 <=? mo) && (mo <=? 12) && (1 <=? da) && (da <=? days_in_month (ya * 100 + yb) mo)
+                             && (ho <=? 23) && (mi <=? 59) && (se <=? 59) in
+                if valid then
+                  let '(nanos, rest3) :=
+                    match rest2 with
+                    | p :: f1 :: r => if (Byte.eqb p x2e || Byte.eqb p x2c) && is_digit f1
+                                      then let '(ds, tl) := take_dig (f1 :: r) in (frac_nanos ds, tl) else (0, rest2)
+                    | _ => (0, rest2)
+                    end in
+                  match read_zone rest3 with
+                  | Some off => Some {| vsecs := secs - off; vnanos := nanos; voff := 0 |}
+                  | None => None
+                  end
+                else None
+            | _, _, _, _, _, _, _ => None
+            end
+          else None
+      | _ => None
+      end
+  | _ => None
+  end.
+(* what JSONGetTime makes of the text of the property: `len(str) > 0`, UnmarshalText, .UTC(); Some None = the zero time.
+   Never None: the decoder model does not abstain on instant texts. *)
+Definition parse_rfc3339 (s : bytes) : option (option vtime) :=
+  match s with [] => Some None | _ => Some (read_rfc3339 s) end.
 
 (* the seconds of go-xsd-duration's parseTagWithValue: v, err := strconv.ParseFloat(text, 32); d.v = time.Duration(float64(time.Second) * v).
    ParseFloat(.., 32) returns the float32 nearest to the decimal (as a float64); the product with 1e9 is exact in float64
@@ -217,7 +288,7 @@ Fixpoint xsd_parts (fuel : nat) (is_time : bool) (s : bytes) (acc : Z) : option 
           end
       end
   end.
-Definition parse_xsd_duration (s : bytes) : option Z :=
+Definition xsd_duration_grammar (s : bytes) : option Z :=
   match s with
   | [] => Some 0
   | _ =>
@@ -236,6 +307,12 @@ Definition parse_xsd_duration (s : bytes) : option Z :=
       | _ => None
       end
   end.
+
+(* what JSONGetDuration returns for the text of the property, on ALL byte strings: Model/XsdRead.v (xsd.Unmarshal as the
+   code is, under the recover of parseDuration; 0 for a text that is no duration).  Never None: the decoder model does
+   not abstain on duration texts.  [xsd_duration_grammar] above is the reader on the xsd:duration grammar; the two agree
+   wherever the grammar reader answers (Proofs/XsdAgreeP.v xsd_grammar_agrees). *)
+Definition parse_xsd_duration (s : bytes) : option Z := Some (XsdRead.read_duration s).
 
 (* ---- NotEmpty (helpers.go) on freshly loaded values ---- *)
 (* the duration clause of notEmptyObject: `o.Duration != 0`; the pinned tree tested `o.Duration > 0`, so an object
